@@ -231,6 +231,37 @@ def _command(tree, fname):
     raise ExtractionError('%s: command= not found' % fname)
 
 
+def _strip(tree):
+    """the characters removed by stripBold/Reverse/Underline/Italic + the reset in stripFormatting, and the colour regex"""
+    out = {}
+    for fn in ('stripBold', 'stripReverse', 'stripUnderline', 'stripItalic'):
+        f = find_func(tree, fn)
+        cs = [n for n in ast.walk(f) if isinstance(n, ast.Call) and isinstance(n.func, ast.Attribute) and n.func.attr == 'replace']
+        if len(cs) != 1 or len(cs[0].args) != 2 or _const(cs[0].args[1], str, fn) != '':
+            raise ExtractionError("%s: expected s.replace(<char>, '')" % fn)
+        out[fn] = _const(cs[0].args[0], str, fn)
+        if len(out[fn]) != 1:
+            raise ExtractionError('%s: expected one character' % fn)
+    f = find_func(tree, 'stripFormatting')
+    calls = [n.func.id for n in ast.walk(f) if isinstance(n, ast.Call) and isinstance(n.func, ast.Name)]
+    if sorted(calls) != ['stripBold', 'stripColor', 'stripItalic', 'stripReverse', 'stripUnderline']:
+        raise ExtractionError('stripFormatting: expected the five strip* calls')
+    first = [n for n in f.body if isinstance(n, ast.Assign)][0]
+    if not (isinstance(first.value, ast.Call) and isinstance(first.value.func, ast.Name) and first.value.func.id == 'stripColor'):
+        raise ExtractionError('stripFormatting: stripColor must come first')
+    ret = [n for n in f.body if isinstance(n, ast.Return)]
+    if len(ret) != 1 or not (isinstance(ret[0].value, ast.Call) and isinstance(ret[0].value.func, ast.Attribute)
+                             and ret[0].value.func.attr == 'replace'):
+        raise ExtractionError("stripFormatting: expected return s.replace(<reset>, '')")
+    out['reset'] = _const(ret[0].value.args[0], str, 'stripFormatting reset')
+    from vlib.extractlib import find_assign
+    rx = find_assign(tree, '_stripColorRe')
+    if not (isinstance(rx, ast.Call) and len(rx.args) == 1):
+        raise ExtractionError('_stripColorRe: expected re.compile(<literal>)')
+    out['regex'] = _const(rx.args[0], str, '_stripColorRe')
+    return out
+
+
 @extractor('Reply')
 def gen_reply():
     tries = _split_bytes(parse('src/utils/str.py'))
@@ -243,6 +274,10 @@ def gen_reply():
             raise ExtractionError('FormatContext.start and FormatParser.parse disagree on the %s character' % k)
     if reset != table['reset']:
         raise ExtractionError('FormatContext.end and FormatParser.parse disagree on the reset character')
+    strip = _strip(iu)
+    if (strip['stripBold'], strip['stripReverse'], strip['stripUnderline'], strip['reset']) != \
+            (table['bold'], table['reverse'], table['underline'], table['reset']):
+        raise ExtractionError('strip* and FormatParser.parse disagree on a control character')
     cb = _callbacks(parse('src/callbacks.py'))
     im = parse('src/ircmsgs.py')
     body = 'import LimnoriaModel.Py.Basic\nnamespace Gen\n\n'
@@ -261,6 +296,8 @@ def gen_reply():
     body += ch('underlineChar', table['underline'], 'FormatParser.parse / FormatContext.start')
     body += ch('resetChar', table['reset'], 'FormatParser.parse / FormatContext.end')
     body += ch('colorChar', table['getColor'], 'FormatParser.parse')
+    body += ch('italicChar', strip['stripItalic'], 'ircutils.stripItalic')
+    body += st('stripColorRe', strip['regex'], 'ircutils._stripColorRe')
     body += st('digitChars', digits, "FormatParser.getInt: `while c and c in '…'`")
     body += nat('colorBase', base, 'FormatParser.getInt: `j = i * N`')
     body += nat('colorLimit', limit, 'FormatParser.getInt: `if j >= N`')
